@@ -30,30 +30,32 @@ Definition strip_gzip (vs : list string) : list string :=
   | [] => vs
   end.
 
-Definition project_entry (q : request) (pl : pipeline) (tracing : bool) (e : string * list string) : list (string * list string) :=
+Definition project_entry (names : list string) (tracing : bool) (e : string * list string) : list (string * list string) :=
   let k := fst e in
-  if negb (mem_str k (statement_names q pl) || is_forwarding_name k) then []
+  if negb (mem_str k names || is_forwarding_name k) then []
   else if tracing && mem_str k propagation_names then []
   else if String.eqb k "Accept-Encoding" then match strip_gzip (snd e) with [] => [] | vs => [(k, vs)] end
   else if String.eqb k "User-Agent" then [(k, firstn 1 (snd e))]
   else [e].
 
-Definition project (q : request) (pl : pipeline) (r : rule) (o : outcome) : outcome :=
+Definition project (names : list string) (r : rule) (o : outcome) : outcome :=
   match o with
   | NotForwarded st => NotForwarded (st / 100)
   | Forwarded tls m uri host hs body =>
-    Forwarded tls m uri host (flat_map (project_entry q pl (r_tracing r)) hs) body
+    Forwarded tls m uri host (flat_map (project_entry names (r_tracing r)) hs) body
   end.
 
 Definition check (fx : fixes) (c : case) : verdict :=
   let q := c_req c in
   let r := c_rule c in
+  let names := statement_names q (c_pl c) in
+  let v := view_url q in
   {| v_corr := oracle_ok q &&
-               outcome_eqb (project q (c_pl c) r (serve fx q (c_pl c) r)) (project q (c_pl c) r (c_obs c));
+               outcome_eqb (project names r (serve fx q (c_pl c) r)) (project names r (c_obs c));
      v_prop := spec_ok q (c_pl c) r (c_obs c);
-     v_guards := guards [(1%Z, guard_F1 q r && negb (fx_f1 fx)); (2%Z, guard_F2 q); (3%Z, guard_F3 q r);
-                         (4%Z, guard_F4 q (c_pl c) && negb (fx_f4 fx)); (5%Z, guard_F5 r);
-                         (6%Z, guard_F6 q r && negb (fx_f6 fx)); (7%Z, guard_F7 q && negb (fx_f7 fx));
+     v_guards := guards [(1%Z, negb (fx_f1 fx) && guard_F1_v v r); (2%Z, guard_F2 q); (3%Z, guard_F3_v v r);
+                         (4%Z, negb (fx_f4 fx) && guard_F4 q (c_pl c)); (5%Z, guard_F5 r);
+                         (6%Z, negb (fx_f6 fx) && guard_F6_v v r); (7%Z, negb (fx_f7 fx) && guard_F7 q);
                          (8%Z, guard_F8 (c_pl c) r)] |}.
 
 (** * units: Backend.CreateURL on arbitrary url.URL values *)
